@@ -314,7 +314,7 @@ ADDENDA = {
 }
 TECH_ADD = ("; canonicalisation before the rules (inventory-based helper inlining, accumulator promotion, enumerate / literal-loop "
             "normalisation, continuation-style inlining of search helpers, builder-dictionary / callable-alias / array-alias forms; "
-            "C++: guarded-value helpers, row pointers, for(;c;step) loops, enum case labels; locals aligned with the reference names by alpha-renaming in both languages; constants to the right of == / !=, negated two-way ifs written positively, x = x op e as compound assignment, named results and edit-introduced single-use temporaries folded back), symbolic evaluation of Python returns (pysym)")
+            "C++: guarded-value helpers, row pointers, for(;c;step) loops, enum case labels; locals aligned with the reference names by alpha-renaming in both languages, positional / keyword call shapes aligned with the reference calls; constants to the right of == / !=, negated two-way ifs written positively, x = x op e as compound assignment, named results and edit-introduced single-use temporaries folded back), symbolic evaluation of Python returns (pysym)")
 
 NOT_YET = {}
 
